@@ -116,8 +116,10 @@ package mod
 // xColumn during an UPDATE: SQLite flags the columns the statement does not
 // assign (sqlite3_vtab_nochange). For those no result may be set, so that the
 // value reaches xUpdate flagged no-change and valuesToGo leaves the column
-// unassigned: an UPDATE re-stamps exactly the columns it sets (C02).
+// unassigned: an UPDATE re-stamps exactly the columns it sets (C02). The key
+// column is always returned (the binding compares old and new key to tell an
+// UPDATE from a key change).
 //@ func (*Cursor).Column
 //@   requires c != nil && c.common != nil && ctx != nil && ctx.Context != nil
 //@   modifies gf(ctx.Context.ptr, "resKind"), gf(ctx.Context.ptr, "resInt"), gff(ctx.Context.ptr, "resReal"), gfs(ctx.Context.ptr, "resText"), gfs(ctx.Context.ptr, "resBlob")
-//@   ensures nochange: imp(ctxNoChange(ctx), result == nil && gf(ctx.Context.ptr, "resKind") == old(gf(ctx.Context.ptr, "resKind")))
+//@   ensures nochange: imp(ctxNoChange(ctx) && i != c.keyCol, result == nil && gf(ctx.Context.ptr, "resKind") == old(gf(ctx.Context.ptr, "resKind")))
